@@ -568,3 +568,22 @@ def attach_m1_encoder(mon=MON):
     s2m.__wrapped__ = orig
     enc.smiles_to_mol = s2m
     return True
+
+
+def attach_m4b(mon=MON):
+    """Observability for the matching routine: counts the augmenting-path searches (the part of the kekulizer that
+    only runs when the greedy matching is not perfect)."""
+    mu = _mods()["matching_utils"]
+    orig = getattr(mu, "_find_augmenting_path", None) if mu is not None else None
+    if orig is None:
+        mon.unreached.add("M4b")
+        return False
+    lock = threading.Lock()
+
+    def fap(*a, **k):
+        with lock:
+            mon.counts["M4b.augmenting_path_searches"] += 1
+        return orig(*a, **k)
+    fap.__wrapped__ = orig
+    mu._find_augmenting_path = fap
+    return True
